@@ -4,6 +4,7 @@
 From Coq Require Import List ZArith NArith Bool.
 From BBS Require Import Buffer.Algebra Buffer.AlgebraProofs Buffer.Mux Buffer.MuxProofs.
 From BBS Require Import Buffer.AlgebraTask Buffer.MuxSeq.
+From BBS Require Import Common.Sx Run.R15 Buffer.MuxSeqMon Buffer.AlgebraTaskMon.
 Import ListNotations.
 Open Scope Z_scope.
 
@@ -36,6 +37,16 @@ Theorem clone_halves_equal : forall D flt p sib max,
   build D flt true (CloneCopyL p max sib) = build D flt true (CloneCopyR p max sib).
 Proof. intros. split; [apply halves_equal|apply copy_halves_equal]. Qed.
 Print Assumptions clone_halves_equal.
+
+(** Every consumer that completes sees the object's bytes: on the object built
+    by any program, a method that succeeds returns exactly the bytes the Buffer
+    interface promises for it ([expected]: the whole object, the tail from the
+    offset, the requested slice, the size), and (n, io.EOF) only comes from a
+    ReadAt that reaches the end. *)
+Theorem successful_methods_return_the_object : forall D flt p n m,
+  build D flt true p = BNode n -> spec_ok D m (eval D flt n m).
+Proof. intros D flt p n m H. apply eval_spec. exact (build_wf D flt p n H). Qed.
+Print Assumptions successful_methods_return_the_object.
 
 (** GetSizeBytes keeps reporting the object's size unless the buffer has
     become an error buffer. *)
@@ -142,13 +153,6 @@ Example task_error_dropped_example :
   eval [1; 2; 3] FNone (withTask 0 14 n) (MReadAt 3 0) = Err 14 /\
   Algebra.run [1; 2; 3] FNone true (WithTask (Base KReader) 0 14) (MReadAt 5 0) = Eof [1; 2; 3].
 Proof. exact readat_eof_drops_task_error. Qed.
-
-(** The special case proved earlier (every result [Ok _]). *)
-Theorem task_error_reported_if_data_ok_partial : forall D flt n id terr m x,
-  terr <> 0 -> m <> MSize -> m <> MDiscard -> eval D flt n m = Ok x ->
-  eval D flt (withTask id terr n) m = Err terr.
-Proof. intros D flt n id terr m x Ht H1 H2. apply task_error_reported; [exact Ht|split; assumption]. Qed.
-Print Assumptions task_error_reported_if_data_ok_partial.
 
 (** A data error takes precedence. *)
 Theorem data_error_takes_precedence : forall D flt n id terr m c,
@@ -272,6 +276,37 @@ Example m1_example :
   match Mux.run 2 5 (init [(3, false, 100%N); (3, false, 1%N); (0, true, 1%N)]) [0; 1; 2; 0; 2; 1; 0; 1; 1; 0; 0; 1] with
   | Some s => map got (cs s) = [[0; 1; -6]; [0; 1; -6]; []]%Z /\ closed s = 1 /\ all_done s = true
               /\ nval s = true /\ minchunk s = Some 1%N
+  | None => False
+  end.
+Proof. vm_compute. repeat split; reflexivity. Qed.
+
+(** ** The monitor is silent on the model
+
+    [mon15] (the property as a decidable check on an observation) never fires
+    on the observation the model itself predicts: for every decorator-program
+    input without any condition, and for every schedule input with at least
+    one consumer and a terminal code other than 99 (the harness accepts codes
+    0..16; item -(1+99) = -100 is its marker for a panicked consumer). *)
+Theorem monitor_silent_on_model : forall inp,
+  (sx_nth inp 0 = A 2%Z -> sx_list (sx_nth inp 3) <> [] /\ sx_Z (sx_nth inp 2) <> 99%Z) ->
+  mon15 inp (run15 inp) = [].
+Proof. exact mon15_silent_on_model. Qed.
+Print Assumptions monitor_silent_on_model.
+
+(** Both hypotheses are needed (inputs outside the harness's domain). *)
+Example monitor_domain_boundary :
+  mon15 (L [A 2; A 1; A 99; L [L [A 2; A 0; A 1]]; L []]%Z)
+        (run15 (L [A 2; A 1; A 99; L [L [A 2; A 0; A 1]]; L []]%Z)) = [11%Z] /\
+  mon15 (L [A 2; A 1; A 0; L []; L []]%Z) (run15 (L [A 2; A 1; A 0; L []; L []]%Z)) = [13%Z].
+Proof. vm_compute. split; reflexivity. Qed.
+
+(** Non-vacuity of [same_sequence]: mid-run, consumer 0 is parked in its second
+    Read (1 of 3 completed), consumer 1 has completed 1 of 2 and is level with
+    the source. *)
+Example same_sequence_midrun :
+  match Mux.run 2 5 (init [(3, false, 100%N); (2, false, 1%N)]) [0; 1; 0; 1; 0] with
+  | Some s => map (completed 3) (firstn 1 (cs s)) = [1] /\ map (completed 2) (skipn 1 (cs s)) = [1] /\
+              map got (cs s) = [[0]; [0]]%Z /\ srcpos s = 1 /\ map st (cs s) = [CWaitRead; CReady]
   | None => False
   end.
 Proof. vm_compute. repeat split; reflexivity. Qed.
